@@ -91,11 +91,31 @@ func vReactorBatch(orbit bool) {
 	default:
 		batch = []unix.EpollEvent{e2}
 	}
-	vk.Batches = [][]unix.EpollEvent{batch, {{Fd: int32(vEventFD), Events: 0x1}}}
+	// how the loop ends after the batch: the engine's shutdown task (graceful), a failing epoll_wait, or (run() only) an
+	// accept that fails fatally (EMFILE) - on every exit the loop closes its connections before it returns
+	nexit := 2
+	if !orbit {
+		nexit = 3
+	}
+	exit := vPick("exit", nexit)
+	switch exit {
+	case 0:
+		vk.Batches = [][]unix.EpollEvent{batch, {{Fd: int32(vEventFD), Events: 0x1}}}
+	case 1:
+		vk.Batches = [][]unix.EpollEvent{batch} // the second epoll_wait fails (EBADF)
+	case 2:
+		vk.Batches = [][]unix.EpollEvent{batch, {eL}}
+	}
 	vk.WaitHook = func(call int) {
-		if call == 2 {
+		if call != 2 {
+			return
+		}
+		switch exit {
+		case 0:
 			// Engine.Stop from another goroutine: the shutdown task, exactly as engine.sigShutdown posts it
 			_ = w.el.poller.Trigger(queue.HighPriority, func(_ any) error { return errorx.ErrEngineShutdown }, nil)
+		case 2:
+			vk.S[vListenFD].AcceptErr = unix.EMFILE
 		}
 	}
 	var err error
@@ -104,7 +124,12 @@ func vReactorBatch(orbit bool) {
 	} else {
 		err = w.el.run()
 	}
-	vAssert("C04.batch.graceful_exit", err == nil && stops == 1 && vk.WaitCalls <= 2)
+	if exit == 0 {
+		vAssert("C04.batch.graceful_exit", err == nil && stops == 1 && vk.WaitCalls <= 2)
+	} else {
+		// (an OnClose answering Shutdown may end the loop gracefully before the failure is reached)
+		vAssert("C04.batch.exit_signals_the_engine_once", stops == 1 && vk.WaitCalls <= 2 && (err != nil || oca == Shutdown))
+	}
 	g1, g2 := w.h.g(c1), w.h.g(c2)
 	vAssert("C04.batch.each_connection_closed_exactly_once", g1.opens == 1 && g1.closes == 1 && g2.opens == 1 && g2.closes == 1)
 	vAssert("C04.batch.nothing_after_onclose", g1.trafficAfterClose == 0 && g2.trafficAfterClose == 0)
